@@ -6,6 +6,7 @@ import (
 	"errors"
 	"fmt"
 	"io/ioutil"
+	"reflect"
 	"strings"
 	"sync"
 	"time"
@@ -67,6 +68,10 @@ type Observed struct {
 	Path  []string    `json:"path,omitempty"`   // response path without the query name
 	Full  string      `json:"full,omitempty"`   // err.Error(), stack removed
 	Stage string      `json:"stage,omitempty"`  // parse | prepare | execute | harness
+	// Mutated: what Execute changed in the parsed query (spare capacity of its slices included)
+	Mutated string `json:"mutated,omitempty"`
+	// Reexec: how a second Execute of the same parsed query differed from the first
+	Reexec string `json:"reexec,omitempty"`
 }
 
 func (o Observed) String() string {
@@ -118,6 +123,9 @@ func classify(err error, qname string) Observed {
 			o.Class = "wrapped"
 		}
 		o.Text = c.Error()
+	case CustomErr:
+		o.Class = "custom"
+		o.Text = c.SanitizedError()
 	case graphql.ClientError:
 		o.Class = "client"
 		o.Text = c.Error()
@@ -161,7 +169,85 @@ func ExecRerunner(b *Built, text string, vars map[string]interface{}, sched grap
 	return exec(b, text, vars, sched, true)
 }
 
+// ExecTwice executes the parsed query a second time (FIFO) and reports a difference in Reexec.
+func ExecTwice(b *Built, text string, vars map[string]interface{}, sched graphql.WorkScheduler) (obs Observed) {
+	return execOpt(b, text, vars, sched, false, true)
+}
+
 func exec(b *Built, text string, vars map[string]interface{}, sched graphql.WorkScheduler, rerun bool) (obs Observed) {
+	return execOpt(b, text, vars, sched, rerun, false)
+}
+
+// ---- the parsed query must come back from Execute as it went in ----
+
+type setSnap struct {
+	sels  []*graphql.Selection // the whole backing array, spare capacity included
+	frags []*graphql.Fragment
+}
+type querySnap struct {
+	sets  map[*graphql.SelectionSet]setSnap
+	sels  map[*graphql.Selection]graphql.Selection
+	frags map[*graphql.Fragment]graphql.Fragment
+}
+
+func snapshot(root *graphql.SelectionSet) *querySnap {
+	qs := &querySnap{sets: map[*graphql.SelectionSet]setSnap{}, sels: map[*graphql.Selection]graphql.Selection{}, frags: map[*graphql.Fragment]graphql.Fragment{}}
+	var walk func(ss *graphql.SelectionSet)
+	walk = func(ss *graphql.SelectionSet) {
+		if ss == nil {
+			return
+		}
+		if _, ok := qs.sets[ss]; ok {
+			return
+		}
+		full := ss.Selections[:cap(ss.Selections)]
+		fullF := ss.Fragments[:cap(ss.Fragments)]
+		qs.sets[ss] = setSnap{sels: append([]*graphql.Selection{}, full...), frags: append([]*graphql.Fragment{}, fullF...)}
+		for _, s := range ss.Selections {
+			qs.sels[s] = *s
+			walk(s.SelectionSet)
+		}
+		for _, f := range ss.Fragments {
+			qs.frags[f] = *f
+			walk(f.SelectionSet)
+		}
+	}
+	walk(root)
+	return qs
+}
+
+func (qs *querySnap) diff() string {
+	for ss, sn := range qs.sets {
+		if len(ss.Selections) > len(sn.sels) || cap(ss.Selections) != len(sn.sels) || len(ss.Fragments) > len(sn.frags) || cap(ss.Fragments) != len(sn.frags) {
+			return "a selection set's slices were replaced or resized"
+		}
+		full := ss.Selections[:cap(ss.Selections)]
+		for i := range full {
+			if full[i] != sn.sels[i] {
+				return fmt.Sprintf("slot %d of a Selections backing array (len %d, cap %d) was overwritten", i, len(ss.Selections), cap(ss.Selections))
+			}
+		}
+		fullF := ss.Fragments[:cap(ss.Fragments)]
+		for i := range fullF {
+			if fullF[i] != sn.frags[i] {
+				return fmt.Sprintf("slot %d of a Fragments backing array (len %d, cap %d) was overwritten", i, len(ss.Fragments), cap(ss.Fragments))
+			}
+		}
+	}
+	for s, was := range qs.sels {
+		if s.Name != was.Name || s.Alias != was.Alias || s.SelectionSet != was.SelectionSet || len(s.Directives) != len(was.Directives) {
+			return "selection " + was.Alias + " was modified"
+		}
+	}
+	for f, was := range qs.frags {
+		if f.On != was.On || f.SelectionSet != was.SelectionSet || len(f.Directives) != len(was.Directives) {
+			return "a fragment on " + was.On + " was modified"
+		}
+	}
+	return ""
+}
+
+func execOpt(b *Built, text string, vars map[string]interface{}, sched graphql.WorkScheduler, rerun, twice bool) (obs Observed) {
 	done := make(chan Observed, 1)
 	go func() {
 		var o Observed
@@ -184,6 +270,8 @@ func exec(b *Built, text string, vars map[string]interface{}, sched graphql.Work
 			return
 		}
 		ex := graphql.NewExecutor(sched)
+		snap := snapshot(q.SelectionSet)
+		defer func() { o.Mutated = snap.diff() }()
 		var val interface{}
 		if rerun {
 			fin := make(chan struct{})
@@ -219,6 +307,19 @@ func exec(b *Built, text string, vars map[string]interface{}, sched graphql.Work
 		var back interface{}
 		json.Unmarshal(raw, &back)
 		o = Observed{OK: true, JSON: back}
+		if twice {
+			val2, err2 := graphql.NewExecutor(&Scripted{}).Execute(context.Background(), b.Schema.Query, nil, q)
+			if err2 != nil {
+				o.Reexec = "second execution failed: " + err2.Error()
+			} else {
+				raw2, _ := json.Marshal(val2)
+				var back2 interface{}
+				json.Unmarshal(raw2, &back2)
+				if !reflect.DeepEqual(back, back2) {
+					o.Reexec = "second execution returned " + string(raw2)
+				}
+			}
+		}
 	}()
 	select {
 	case o := <-done:
